@@ -7,7 +7,7 @@ check("C09", "model_checking",
       "lli; printed decimals (limbs -> decimal in Python), codes and lints are compared with the rule. Random literals in between are "
       "compiled, run, recorded and validated by TLC (Trace_Literals).",
       "Trusted: TLC, Literals.tla / PenneLex.tla / Wide.tla (NumValue = Wide!Parse and the decimal table are checked by TLC on every "
-      "enumerated literal), print! of integers, lli, the limbs<->decimal conversion. Unconstrained cells and 3 genuine findings "
-      "(false L1142 on i128::MIN, no L1142 in return values and if conditions) are in docs/notes-lex.md.",
+      "enumerated literal), print! of integers, lli, the limbs<->decimal conversion. Unconstrained cells and the genuine findings "
+      "(false L1142 on i128::MIN, no L1142 in return values and if conditions, \\u{} in char literals) are in docs/notes-lex.md.",
       "TLA+ rule + TLC enumeration of the boundary matrix, replay of every literal through the real compiler and lli, TLC trace validation of random literals",
       "DESIGN.md section 5 C09")
